@@ -278,7 +278,7 @@ func Gen(rng *rand.Rand, pf Profile, scn string) *Plan {
 	p.SegC = pick(rng, "full", "full", "small", "byte", "mixed")
 	p.SegS = pick(rng, "full", "full", "small", "byte", "mixed")
 	p.Scn = scn
-	p.SlowWriter = rng.Intn(6) == 0 || scn == "slowdest"
+	p.SlowWriter = (rng.Intn(6) == 0 && scn == "") || scn == "slowdest" // never combined with another forced scenario
 	nPh := 1 + rng.Intn(3)
 	K := 1 + rng.Intn(pf.MaxStreams)
 	if rng.Intn(3) == 0 && K > 2 {
